@@ -127,6 +127,27 @@ def applyKernel (n : Nat) (eps epsp : Rat) (w : List Rat) : List Rat :=
   (allBits n).map fun b' =>
     ((allBits n).map fun b => lookup w (bitsIndex b) * flipKernel eps epsp b b').sum
 
+/-! ## 3b. State-preparation errors (`QutipEmulator._noisy_runs`, state-preparation-only path) -/
+
+/-- `np.random.uniform(size=n) < eta`: the atoms drawn as badly prepared in one run. -/
+def drawBad (eta : Rat) (u : List Rat) : List Bool := u.map fun x => decide (x < eta)
+
+/-- `"".join(dist.astype(int).astype(str))`: the configuration as a string of `'0'`/`'1'` (the key
+under which identical runs are counted). -/
+def encodeConfig (bad : List Bool) : List Char := bad.map fun b => if b then '1' else '0'
+
+/-- `np.array(list(initial_state)) == "1"`: the bad atoms loaded for a run (the expression of the
+tree since the repair of finding F36). -/
+def decodeConfig (s : List Char) : List Bool := s.map (· == '1')
+
+/-- The expression before the repair, `np.array(list(initial_state)).astype(bool)`: numpy 2 casts
+every non-empty string to `True`, so every atom was marked badly prepared. -/
+def decodeConfigOld (s : List Char) : List Bool := s.map fun _ => true
+
+/-- Probability of drawing a configuration: atoms fail independently with probability `eta`. -/
+def configWeight (eta : Rat) (cfg : List Bool) : Rat :=
+  flipKernel eta 0 (List.replicate cfg.length false) cfg
+
 /-! ## 4. The `Results` store (`pulser/backend/results.py`) -/
 
 inductive StoreErr
